@@ -106,6 +106,18 @@ Definition lookup_name (w : world) (st : state) (n : string) : option Z :=
   | None => w_handler w n
   end.
 
+(* ... which also records the name under which a handler-provided object was found *)
+Definition found_name (w : world) (st : state) (n : string) : option (Z * state) :=
+  match sget n (s_n2r st) with
+  | Some o => Some (o, st)
+  | None => match w_handler w n with
+            | Some o => Some (o, if is_some (zget o (s_r2n st)) then st
+                                 else {| s_n2r := s_n2r st; s_r2n := zset o n (s_r2n st); s_copy := s_copy st;
+                                         s_a := s_a st; s_b := s_b st |})
+            | None => None
+            end
+  end.
+
 (* arguments are unsliced left to right; the first failing one ends the request (or the connection) *)
 Inductive argres := ArgsOk (inst : list Z) | ArgsFail (inst : list Z) (r : refusal).
 Fixpoint do_args (copy : list (string * Z)) (ex : list (Z * (Z * Z))) (args : list arg) (inst : list Z) : argres :=
@@ -131,11 +143,11 @@ Fixpoint do_args (copy : list (string * Z)) (ex : list (Z * (Z * Z))) (args : li
   end.
 
 (* what a delivered call does to the tables *)
-Inductive effect := FxNone | FxDrop | FxGrant (o : Z) | FxDecref (clid k : Z).
+Inductive effect := FxNone | FxDrop | FxLookup (n : string) | FxDecref (clid k : Z).
 
 (* a call addressed to clid 0: the Broker itself, restricted to RIBroker, arguments checked by RIBroker's schema
    while they are parsed (so nothing is instantiated for a call that does not fit) *)
-Definition broker_call (w : world) (st : state) (req : Z) (m : mname) (args : list arg) : outcome * effect :=
+Definition broker_call (m : mname) (args : list arg) : outcome * effect :=
   match m with
   | MBad => (Aborted, FxDrop)
   | MStr s =>
@@ -144,14 +156,7 @@ Definition broker_call (w : world) (st : state) (req : Z) (m : mname) (args : li
     else if String.eqb s "getReferenceByName" then
       match args with
       | [ABytes n] =>
-        (Enter (EBroker (remote_prefix ++ s)),
-         match n with
-         | MStr nm => match lookup_name w st nm with
-                      | Some o => if req =? 0 then FxNone else FxGrant o
-                      | None => FxNone
-                      end
-         | MBad => FxNone
-         end)
+        (Enter (EBroker (remote_prefix ++ s)), match n with MStr nm => FxLookup nm | MBad => FxNone end)
       | _ => (Reject, FxNone)
       end
     else if String.eqb s "decref" then
@@ -268,12 +273,19 @@ Definition step (w : world) (st : state) (e : event) : state * result :=
     let cn := get_conn st c in
     if negb (c_alive cn) then (st, res0 Dead)
     else if clid =? broker_clid then
-      let '(out, fx) := broker_call w st req m args in
+      let '(out, fx) := broker_call m args in
       match fx with
       | FxNone => (st, res0 out)
       | FxDrop => (set_conn st c (drop_conn cn), res0 out)
       | FxDecref k n => (set_conn st c (decref cn k n), res0 out)
-      | FxGrant o => let '(st', sent) := grant w st c o "" in (st', {| r_inst := []; r_out := out; r_sent := sent |})
+      | FxLookup nm =>
+        (* Tub.getReferenceForName, then (if an answer is wanted) the result is serialised towards the peer *)
+        match found_name w st nm with
+        | None => (st, res0 out)
+        | Some (o, st0) =>
+          if req =? 0 then (st0, res0 out)
+          else let '(st', sent) := grant w st0 c o "" in (st', {| r_inst := []; r_out := out; r_sent := sent |})
+        end
       end
     else
       let '(inst, out) := obj_call w (s_copy st) cn clid m args in
